@@ -829,7 +829,7 @@ def material_balance(chemical_IDs, variable_inlets, constant_inlets=(),
         f = mol_out[index]
         g = sum([s.mol[index] for s in constant_inlets])
         b = f - g
-        x = solver(A, b)
+        x = solver(A, b) if is_exact else solver(A, b, rcond=None)[0] # lstsq returns (solution, residuals, rank, singular values)
 
         # Set flow rates for input streams
         for factor, s in zip(x, variable_inlets):
@@ -862,7 +862,7 @@ def material_balance(chemical_IDs, variable_inlets, constant_inlets=(),
         while not_converged:
             # Solve linear equations for mass balance
             b = (A_ * x_guess).sum()*f + O
-            x_new = solver(A, b)
+            x_new = solver(A, b) if is_exact else solver(A, b, rcond=None)[0]
             infeasibles = x_new < 0.
             if infeasibles.any(): x_new -= x_new[infeasibles].min()
             denominator = x_guess.copy()
